@@ -174,7 +174,7 @@ def finish(prop, tier, seed, mod, outs, wall):
         code = 3
     elif undecided:
         for r in undecided:
-            print('  UNDECIDED %s: %s' % (r['id'], (r.get('detail') or '')[:300]))
+            print('  UNDECIDED %s [%s]: %s' % (r['id'], r.get('path'), (r.get('detail') or '')[:300]))
         code = 2
     return code
 
